@@ -182,27 +182,47 @@ def floatIdeal : Arith := { Ideal.arith Sc.float with quantize := fun b => Float
 
 def minAbs (m : Float) (l : List Float) : Float := l.foldl (fun a x => if x.abs < a then x.abs else a) m
 
+/-- the tanh rule with its clamp (x/2 clamped to ±c: 18 for f64, 9 for f32), evaluated at `Float` -/
+def floatTanh (c : Float) : Arith := ArithFloat.mkArith Sc.float Float.ofBits c .tanh
+
+/-- reference arithmetic of a tree case: the clamped tanh rule for the Tanh names (so that large LLRs saturate as in the
+code), the ideal rule otherwise; all carriers are `Float` -/
+def treeRef (name : String) : Arith :=
+  if (name.splitOn "Tanh").length > 1 then floatTanh (if name.endsWith "32" then 9 else 18) else floatIdeal
+
+def floodStep (tanhClamp : Option Float) (h : SM) (input : List Float) (em : List (List (Nat × Float))) :
+    Option (List (List (Nat × Float)) × List Float) :=
+  match tanhClamp with
+  | some c => (BPRef.floodIter (A := floatTanh c) h input em).map (fun r => (r.1, r.2.1))
+  | none => (BPRef.floodIter (A := floatIdeal) h input em).map (fun r => (r.1, r.2.1))
+
+def layerStep (tanhClamp : Option Float) (rcv : List (List (Nat × Float))) (vars : List Float) :
+    Option (List (List (Nat × Float)) × List Float) :=
+  match tanhClamp with
+  | some c => (BPRef.layerIter (A := floatTanh c) 0 rcv vars).map (fun r => (r.1, r.2.1))
+  | none => (BPRef.layerIter (A := floatIdeal) 0 rcv vars).map (fun r => (r.1, r.2.1))
+
 /-- textbook flooding with the syndrome stop, also returning the smallest |LLR| seen (robustness of the hard decisions) -/
-def treeFlood (h : SM) (input : List Float) (n : Nat) :
+def treeFlood (tanhClamp : Option Float) (h : SM) (input : List Float) (n : Nat) :
     Nat → List (List (Nat × Float)) → List Float → Float → Option (Verdict × Float)
   | 0, _, llrs, m => some (.failure (llrs.map (· ≤ 0)) n, m)
   | rem+1, em, _, m =>
-    match BPRef.floodIter (A := floatIdeal) h input em with
+    match floodStep tanhClamp h input em with
     | none => none
-    | some (em', llrs', _) =>
+    | some (em', llrs') =>
       let w := llrs'.map (fun (x : Float) => decide (x ≤ 0))
       let m' := minAbs m llrs'
-      if syndromeOK h w then some (.success w (n - rem), m') else treeFlood h input n rem em' llrs' m'
+      if syndromeOK h w then some (.success w (n - rem), m') else treeFlood tanhClamp h input n rem em' llrs' m'
 
-def treeLayer (h : SM) (n : Nat) : Nat → List (List (Nat × Float)) → List Float → Float → Option (Verdict × Float)
+def treeLayer (tanhClamp : Option Float) (h : SM) (n : Nat) : Nat → List (List (Nat × Float)) → List Float → Float → Option (Verdict × Float)
   | 0, _, vars, m => some (.failure (vars.map (· ≤ 0)) n, m)
   | rem+1, rcv, vars, m =>
-    match BPRef.layerIter (A := floatIdeal) 0 rcv vars with
+    match layerStep tanhClamp rcv vars with
     | none => none
-    | some (rcv', vars', _) =>
+    | some (rcv', vars') =>
       let w := vars'.map (fun (x : Float) => decide (x ≤ 0))
       let m' := minAbs m vars'
-      if syndromeOK h w then some (.success w (n - rem), m') else treeLayer h n rem rcv' vars' m'
+      if syndromeOK h w then some (.success w (n - rem), m') else treeLayer tanhClamp h n rem rcv' vars' m'
 
 /-- `c03 tree`: (1) the ideal BP LLRs after `ncols` iterations (≥ diameter) equal the brute-force posterior (numeric
 companion of C03Tree.exact_after_diameter, both schedules); (2) the implementation's verdict equals the ideal
@@ -217,7 +237,8 @@ def handleC03Tree (name r c call : String) (out : List String) : String :=
     let margin : Float := if f32 then 1e-2 else 1e-7
     let post := (List.range h.ncols).map (Ideal.posterior Sc.float h lam)
     let far := if layered then (Ideal.layerRun Sc.float h lam h.ncols).map (·.2) else (Ideal.floodRun Sc.float h lam h.ncols).map (·.2)
-    let sane := match far with
+    let tanhClamp : Option Float := if (name.splitOn "Tanh").length > 1 then some (if f32 then 9 else 18) else none
+    let sane := if lam.any (fun x => x.abs > 8) then true else match far with   -- the ideal rule is not computable in Float beyond |x| ~ 36 (tanh rounds to 1)
       | none => false
       | some l =>
         -- beyond |LLR| ~ 8 the Float evaluation of atanh near 1 loses digits (1 - tanh 15 = 2e-13): absolute 1e-2 there
@@ -225,8 +246,8 @@ def handleC03Tree (name r c call : String) (out : List String) : String :=
         l.length == post.length && (l.zip post).all (fun p => (p.1 - p.2).abs ≤ tol * (1 + p.2.abs))
     let signsOK := syndromeOK h (lam.map (· ≤ 0))
     let run := if signsOK then some (Verdict.success (lam.map (fun (x : Float) => decide (x ≤ 0))) 0, minAbs 1e9 lam)
-               else if layered then treeLayer h n n (Store.blank (0 : Float) h.rows) lam (minAbs 1e9 lam)
-               else treeFlood h lam n n (BPRef.initEmitted (A := floatIdeal) h lam) lam (minAbs 1e9 lam)
+               else if layered then treeLayer tanhClamp h n n (Store.blank (0 : Float) h.rows) lam (minAbs 1e9 lam)
+               else treeFlood tanhClamp h lam n n (BPRef.initEmitted (A := floatIdeal) h lam) lam (minAbs 1e9 lam)
     match run with
     | none => "BADLINE c03 tree model-panic"
     | some (v, m) =>
@@ -235,7 +256,12 @@ def handleC03Tree (name r c call : String) (out : List String) : String :=
         (match prop with
          | some why => s!"PROPFAIL {why} :: {showVerdict v}"
          | none => s!"ok [not-compared: hard decision within rounding margin] {showVerdict v}")
-      else verdict [showVerdict v] out prop
+      else
+        -- the reference IS the property's oracle here (textbook schedule with the exact sum-product rule): a difference is a property failure
+        let prop := match prop with
+          | some e => some e
+          | none => if out ≠ [showVerdict v] then some "differs-from-the-textbook-schedule-with-the-exact-sum-product-rule-on-a-cycle-free-matrix" else none
+        verdict [showVerdict v] out prop
   | _, _ => "BADLINE c03 tree parse"
 
 def handleC03 (inp out : List String) : String :=
